@@ -2,9 +2,13 @@
 
 usage: c15_impl.py <runname> <n> <mode> <plan-json>
    mode  dry     no injection, no tracing: only the (k, function, with-line) log
-         census  no injection, every block traced (executed body lines per block), sympy_simplify calls logged
-         inject  raise TimeoutException per plan [[k, j], ...]; injected blocks traced; calls logged
-Prints one JSON object on the last stdout line.  Output library: <scratch>/esr/function_library/<runname>/compl_<n>/ .
+         census  no injection, every block traced (executed body lines, entry/exit snapshots), calls logged
+         inject  like census, and TimeoutException raised per plan
+   plan  [[k, j], ...]                 k-th entered block (per process), j-th counted line event (-1: after the body)
+      or {"call": {"max_param": 3, "check_perm": true, "expand_fun": false}, "nth": 0, "kinds": ["KA","KB","KC","KD"], "j": 0}
+                                       every block of those kinds inside the nth sympy_simplify call with these arguments
+Prints one JSON object on the last stdout line (prefix C15JSON).
+Output library: <scratch>/esr/function_library/<runname>/compl_<n>/ .
 """
 import contextlib
 import csv
@@ -32,6 +36,9 @@ def _cp(l):
     return None if l is None else [str(v) for v in l]
 
 
+state = dict(shuf_done=False)
+
+
 def snap(frame, rec):
     loc = frame.f_locals
     fn = frame.f_code.co_name
@@ -40,44 +47,115 @@ def snap(frame, rec):
             i = loc["i"]
             isf, aisf = loc["inv_subs_fun"], loc["all_inv_subs"]
             d = dict(i=int(i), str=loc["str_fun"][i], sym=str(loc["sym_fun"][i]), subs=_cp(isf[i]),
-                     gstr=loc["all_fun"][i], gsubs=_cp(aisf[i]),
+                     gstr=loc["all_fun"][i], gsym=str(loc["all_sym"][i]), gsubs=_cp(aisf[i]),
                      alias=(isf[i] is not None and isf[i] is aisf[i]),
-                     f1_bound=("f1" in loc), expr_bound=("expr" in loc),
-                     expand_fun=bool(loc["expand_fun"]), max_param=int(loc["max_param"]), check_perm=bool(loc["check_perm"]))
-            for nm in ("change_indices", "ref_indices", "new_inv_subs"):
-                if nm in loc:
-                    d[nm] = len(loc[nm])
+                     f1_bound=("f1" in loc), expr_bound=("expr" in loc))
+            if "change_indices" in loc:
+                d["ci"] = [int(v) for v in loc["change_indices"]]
+                d["ri"] = [int(v) for v in loc["ref_indices"]]
+                d["ns"] = _cp(loc["new_inv_subs"])
             return d
         if fn == "expand_or_factor":
-            return dict(j=int(loc["j"]), change_idx=[int(v) for v in loc["change_idx"]], nvals=len(loc["change_vals"]),
+            return dict(j=int(loc["j"]), xi=[int(v) for v in loc["change_idx"]], nxv=len(loc["change_vals"]),
                         key=loc["keys"][loc["j"]])
         if fn == "check_results":
-            return dict(i=int(loc["i"]), fun=loc["all_fun"][loc["i"]], to_change=[[int(r[0]), r[1]] for r in loc["to_change"]],
-                        imin=int(loc["imin"]))
+            d = dict(i=int(loc["i"]), fun=loc["all_fun"][loc["i"]], to_change=[int(r[0]) for r in loc["to_change"]],
+                     imin=int(loc["imin"]))
+            if not state["shuf_done"] and "shufidx" in loc:
+                state["shuf_done"] = True
+                d["shufidx"] = [int(v) for v in loc["shufidx"]]
+            return d
     except Exception as e:  # never disturb the run
         return dict(snap_error="%s: %s" % (type(e).__name__, e))
     return None
 
 
-inj = tinject.Injector(S, plan=plan if mode == "inject" else (), trace_all=(mode == "census"), snap=snap).install()
-# the real SIGALRM is never armed; make sure a stray one would be visible rather than silently ignored
+calls = []
+cur = dict(call=None)
+sel_count = dict(n=0, active=False)
+
+
+def plan_fn(k, func, with_line):
+    if not isinstance(plan, dict):
+        return None
+    c = cur["call"]
+    if func != "sympy_simplify" or c is None or not c.get("_selected"):
+        return None
+    if inj.kind_of.get(with_line) in plan["kinds"]:
+        return int(plan["j"])
+    return None
+
+
+inj = tinject.Injector(S, plan=plan if (mode == "inject" and isinstance(plan, list)) else (),
+                       trace_all=(mode in ("census", "inject")), snap=snap,
+                       plan_fn=plan_fn if mode == "inject" else None).install()
+# with-line -> kind, structurally: the five blocks of sympy_simplify in source order, then the other two
+_by_func = {}
+for ln, info in sorted(inj.scan.items()):
+    _by_func.setdefault(info["func"], []).append(ln)
+inj.kind_of = {}
+for fnm, names in (("sympy_simplify", ["KA", "KB", "KC", "KD", "KE"]), ("expand_or_factor", ["KX"]), ("check_results", ["KR"])):
+    for ln, nm in zip(_by_func.get(fnm, []), names):
+        inj.kind_of[ln] = nm
+# the real SIGALRM is never armed; a stray one must be visible rather than silently ignored
 signal.signal(signal.SIGALRM, signal.SIG_DFL)
 
-calls = []
 _real_simplify = S.sympy_simplify
+_real_do_sympy = S.do_sympy
+_real_check = S.check_results
+extra = dict(do_sympy_in=None, pre_check=None)
 
 
 def logged_simplify(all_fun, all_sym, all_inv_subs, max_param, expand_fun=True, tmax=1, check_perm=False):
     rec = dict(c=len(calls), max_param=int(max_param), expand_fun=bool(expand_fun), check_perm=bool(check_perm),
-               k0=inj.k, in_fun=list(all_fun), in_subs=[_cp(t) for t in all_inv_subs], status="running")
+               k0=inj.k, in_fun=list(all_fun), in_sym=[str(s) for s in all_sym], in_subs=[_cp(t) for t in all_inv_subs],
+               status="running")
+    if isinstance(plan, dict):
+        want = plan["call"]
+        if all(rec[key] == val for key, val in want.items()) and len(all_fun) > 0:
+            if sel_count["n"] == int(plan.get("nth", 0)):
+                rec["_selected"] = True
+            sel_count["n"] += 1
     calls.append(rec)
+    cur["call"] = rec
     out = _real_simplify(all_fun, all_sym, all_inv_subs, max_param, expand_fun=expand_fun, tmax=tmax, check_perm=check_perm)
+    cur["call"] = None
     rec.update(k1=inj.k, out_fun=list(out[0]), out_sym=[str(s) for s in out[1]], out_subs=[_cp(t) for t in out[2]], status="done")
     return out
 
 
+def logged_do_sympy(all_fun, all_sym, *a, **kw):
+    extra["do_sympy_in"] = list(all_fun)
+    extra["k_do_sympy"] = inj.k
+    return _real_do_sympy(all_fun, all_sym, *a, **kw)
+
+
+def _rows(p):
+    with open(p, newline="") as f:
+        return [r for r in csv.reader(f, delimiter=";")]
+
+
+def read_library():
+    return dict(
+        all=open(os.path.join(libdir, "all_equations_%d.txt" % n)).read().splitlines(),
+        uniq=open(os.path.join(libdir, "unique_equations_%d.txt" % n)).read().splitlines(),
+        matches=[int(float(v)) for v in open(os.path.join(libdir, "matches_%d.txt" % n)).read().split()],
+        subs=_rows(os.path.join(libdir, "inv_subs_%d.txt" % n)))
+
+
+def logged_check(dirname, compl, *a, **kw):
+    try:
+        extra["pre_check"] = read_library()
+    except Exception as e:
+        extra["pre_check_error"] = "%s: %s" % (type(e).__name__, e)
+    extra["k_check"] = inj.k
+    return _real_check(dirname, compl, *a, **kw)
+
+
 if mode != "dry":
     S.sympy_simplify = logged_simplify
+    S.do_sympy = logged_do_sympy
+    S.check_results = logged_check
 
 res = dict(runname=runname, n=n, mode=mode, plan=plan, status="ok", scan_bad=inj.scan_bad)
 buf = io.StringIO()
@@ -93,22 +171,22 @@ except BaseException as e:  # noqa: BLE001
 sys.settrace(None)
 
 res["nblocks"] = inj.k
-res["timed_out_prints"] = sum(1 for l in buf.getvalue().splitlines() if l.startswith("TIMED OUT:") or l.startswith("Terminated expanding:"))
-res["bad_comparison_prints"] = sum(1 for l in buf.getvalue().splitlines() if l.startswith("Bad comparison:"))
+out_lines = buf.getvalue().splitlines()
+res["timed_out_prints"] = sum(1 for l in out_lines if l.startswith("TIMED OUT:") or l.startswith("Terminated expanding:"))
+res["bad_comparison_prints"] = sum(1 for l in out_lines if l.startswith("Bad comparison:"))
 if mode == "dry":
     res["blocks"] = [[b["k"], b["func"], b["with_line"]] for b in inj.blocks]
-elif mode == "census":
-    res["blocks"] = [dict(k=b["k"], func=b["func"], with_line=b["with_line"], lines=b["lines"], pre=b["pre"]) for b in inj.blocks]
 else:
-    res["blocks"] = [b for b in inj.blocks if b["j"] is not None]
-    res["kinds"] = [[b["k"], b["with_line"]] for b in inj.blocks]
+    for b in inj.blocks:
+        b["kind"] = inj.kind_of.get(b["with_line"])
+    res["blocks"] = inj.blocks
+for c in calls:
+    c.pop("_selected", None)
 res["calls"] = calls
-
-
-def _rows(p):
-    with open(p, newline="") as f:
-        return [r for r in csv.reader(f, delimiter=";")]
-
+res["do_sympy_in"] = extra["do_sympy_in"]
+res["k_do_sympy"] = extra.get("k_do_sympy")
+res["k_check"] = extra.get("k_check")
+res["pre_check"] = extra["pre_check"]
 
 rounds = []
 r = 0
@@ -120,11 +198,7 @@ res["rounds"] = rounds
 res["libdir"] = libdir
 if res["status"] == "ok":
     try:
-        res["final"] = dict(
-            all=open(os.path.join(libdir, "all_equations_%d.txt" % n)).read().splitlines(),
-            uniq=open(os.path.join(libdir, "unique_equations_%d.txt" % n)).read().splitlines(),
-            matches=[int(float(v)) for v in open(os.path.join(libdir, "matches_%d.txt" % n)).read().split()],
-            subs=_rows(os.path.join(libdir, "inv_subs_%d.txt" % n)))
+        res["final"] = read_library()
     except Exception as e:
         res["final_error"] = "%s: %s" % (type(e).__name__, e)
 
